@@ -53,8 +53,10 @@ fn main() {
         "C06" => run_property(props::c06_safe_to::C06, run_args),
         "C07" => run_property(props::c07_parent_ready::C07, run_args),
         "C08" => run_property(props::c08_finality::C08, run_args),
+        "C11" => run_property(props::c11_erasure::C11, run_args),
         "C15" => run_property(props::c15_merkle::C15, run_args),
         "C18" => run_property(props::c18_standstill::C18, run_args),
+        "C19" => run_property(props::c19_wire::C19, run_args),
         _ => {
             eprintln!("unknown property id {id}");
             2
